@@ -351,7 +351,7 @@ func gen(c *ex.Ctx) {
 				case *ast.Ident:
 					name = f.Name
 				}
-				if (name == "Lock" || name == "Unlock") && recv == "vx.closeMu" {
+				if (name == "Lock" || name == "Unlock") && (recv == "vx.closeMu" || recv == "vx.suspendMu") {
 					q = append(q, ex.LeanStr(recv+"."+name))
 				}
 				if keep[name] && !strings.HasPrefix(recv, "vx.tw") {
